@@ -13,6 +13,7 @@ import BespokeVerif.Model.Parse
 import BespokeVerif.Model.Subst
 import BespokeVerif.Model.Output
 import BespokeVerif.Model.Pipeline
+import BespokeVerif.Model.Listing
 import BespokeVerif.Model.Select
 import BespokeVerif.Model.Macro
 import BespokeVerif.Model.Config
@@ -121,6 +122,17 @@ def opFields (j : Json) : R Json := do
   let allFit := fs.all fun f => decide (Fits f.value f.size)
   let spec : Json := if allFit then Json.mkObj [("bytes", jNats (specBytes fs))] else jErr .fieldOverflow
   return Json.mkObj [("impl", jBytesRes (getBytes fs)), ("spec", spec)]
+
+/-- op "chunks": the rows the listing spreads the bytes of one statement over, and what the row decoder makes of them -/
+def opChunks (j : Json) : R Json := do
+  let bs ← (← arr j "bs").toList.mapM fun b => b.getNat?
+  let k ← nat j "k"
+  let rows := chunkRows k bs.length bs
+  let enc := encListingLine k { lineNo := 1, addr := 0, bytes := bs }
+  let merged := mergePRows enc []
+  let natArr (l : List Nat) : Json := Json.arr (l.map fun (n : Nat) => Json.num n).toArray
+  return Json.mkObj [("rows", Json.arr (rows.map natArr).toArray),
+                     ("merged", Json.arr (merged.map fun r => natArr r.bytes).toArray)]
 
 /-- op "split": comma splitting of a value / operand list -/
 def opSplit (j : Json) : R Json := do
@@ -665,6 +677,7 @@ def dispatch (j : Json) : R Json := do
   | "scan" => opScan j
   | "classify" => opClassify j
   | "split" => opSplit j
+  | "chunks" => opChunks j
   | "require" => opRequire j
   | "ping" => pure (Json.mkObj [("pong", Json.bool true)])
   | _ => throw s!"unknown op {op}"
